@@ -443,16 +443,17 @@ def recover_stream(C, entries, name, per_file=40, timeout=600):
 # ------------------------------------------------------------------------------------------------ semantic tie of `serialize` (statement level)
 def render_stream(C, entries, name, per_file=25, timeout=900):
     """For every accepted entry that carries result['sources'] (entries run with want_sources=True): parse, with the GENERIC
-    fail-closed parser tools/py2stmt.py, the body of `serialize` of every generated class into the statement terms of
-    coq/Model/PyStmt.v, and check inside Coq (Model/RenderCheck.v, vm_compute) that they are syntactically equal to
-    `render_serialize` (Model/RenderSer.v) of the same class's body in `elab tree` - the function about which
-    Proofs/RenderSer.v proves: running these statements (interpreter of Model/PyStmt.v) = Model/Ser.v.
-    Classes whose body is outside the theorem's static side condition are counted separately ('outside the theorem').
-    Returns the list of problems: dict(tree, cls, what, ...)."""
+    fail-closed parser tools/py2stmt.py, the bodies of `serialize` AND `deserialize` of every generated class into the statement
+    terms of coq/Model/PyStmt.v / coq/Model/PyStmtR.v, and check inside Coq (Model/RenderCheck.v, Model/RenderCheckD.v, vm_compute)
+    that they are syntactically equal to `render_serialize` (Model/RenderSer.v) / `render_deserialize` (Model/RenderDeser.v) of the
+    same class's body in `elab tree` - the functions about which Proofs/RenderSer.v and Proofs/RenderDeser.v prove: running these
+    statements (interpreters of Model/PyStmt.v, Model/PyStmtR.v) = Model/Ser.v, Model/Deser.v.
+    Classes whose body is outside a theorem's static side condition are counted separately ('outside the theorem').
+    Returns the list of problems: dict(tree, cls, what, ...); problems of the deserialize side carry method='deserialize'."""
     import py2stmt
     t0 = time.time()
     items, problems = [], []
-    n_classes = 0
+    n_classes = n_dclasses = 0
     for e in entries:
         r = e.get('result') or {}
         if not r.get('accepted') or r.get('sources') is None:
@@ -464,43 +465,52 @@ def render_stream(C, entries, name, per_file=25, timeout=900):
         except Exception as ex:          # the parser itself failed: fail closed
             problems.append(dict(tree=e['name'], cls='<package>', what='parser crashed', detail=f"{type(ex).__name__}: {ex}"))
             continue
-        bad = set()
+        bad, dbad = set(), set()
         for u in par['unparsed']:
             bad.add(u.cls)
             problems.append(dict(tree=e['name'], cls=u.cls, what='unparsed', lineno=u.lineno, why=u.why, dump=u.dump[:600]))
+        for u in par['dunparsed']:
+            dbad.add(u.cls)
+            problems.append(dict(tree=e['name'], cls=u.cls, what='unparsed', method='deserialize', lineno=u.lineno, why=u.why, dump=u.dump[:600]))
         try:
-            terms = (py2stmt.coq_parsed(par['classes']), coq_tree(e['tree']))
+            terms = (py2stmt.coq_parsed(par['classes']), coq_tree(e['tree']), py2stmt.coq_parsed(par['dclasses']))
         except (ValueError, AssertionError) as ex:
             problems.append(dict(tree=e['name'], cls='<package>', what='unparsed', why=f"not expressible as a Coq term: {ex}"))
             continue
         n_classes += len(par['classes'])
-        items.append((e, par, terms, bad))
+        n_dclasses += len(par['dclasses'])
+        items.append((e, par, terms, bad, dbad))
     os.makedirs(CASES, exist_ok=True)
+    HEAD = ("From EO Require Import Prelude.Py Prelude.Corr Model.Spec Model.Elab Model.PyStmt Model.RenderSer Model.RenderCheck "
+            "Model.PyStmtR Model.RenderDeser Model.RenderCheckD.\n"
+            "Open Scope string_scope.\nOpen Scope list_scope.\nOpen Scope Z_scope.\n")
     procs = []
     for off in range(0, len(items), per_file):
         fn = os.path.join(CASES, f"{name}_render_{off // per_file}.v")
         with open(fn, 'w') as f:
-            f.write("From EO Require Import Prelude.Py Prelude.Corr Model.Spec Model.Elab Model.PyStmt Model.RenderSer Model.RenderCheck.\n"
-                    "Open Scope string_scope.\nOpen Scope list_scope.\nOpen Scope Z_scope.\n")
-            for k, (e, par, terms, bad) in enumerate(items[off:off + per_file]):
+            f.write(HEAD)
+            for k, (e, par, terms, bad, dbad) in enumerate(items[off:off + per_file]):
                 f.write(f"Definition t{k} : list rfile := {terms[1]}.\n")
                 f.write(f"Definition p{k} : parsed :=\n  {terms[0]}.\n")
                 f.write(f"Eval vm_compute in (render_detail t{k} p{k}).\n")
+                f.write(f"Definition q{k} : dparsed :=\n  {terms[2]}.\n")
+                f.write(f"Eval vm_compute in (render_detail_d t{k} q{k}).\n")
         while len([p for p in procs if p[0].poll() is None]) >= 4:
             time.sleep(0.05)
         p = subprocess.Popen(['bash', '-c', f'ulimit -s unlimited 2>/dev/null || ulimit -s 1000000; exec timeout {timeout} coqc -Q {COQ} EO -w -all {fn}'],
                              stdout=subprocess.PIPE, stderr=subprocess.STDOUT, text=True, cwd=COQ)
         procs.append((p, fn, off, min(per_file, len(items) - off)))
-    n_outside = 0
+    n_outside = n_doutside = 0
+    outside_d = []
     for p, fn, off, n in procs:
         out, _ = p.communicate()
         det = re.findall(r'=\s*(\[.*?\])\s*:\s*list \(string \* string\)', out, flags=re.S)
-        if p.returncode != 0 or len(det) != n:
+        if p.returncode != 0 or len(det) != 2 * n:
             problems.append(dict(tree='*', cls='<coq>', what='coqc failed on ' + fn, detail=out[-800:]))
             continue
         for k in range(n):
-            e, par, terms, bad = items[off + k]
-            for cls, what in re.findall(r'\("([^"]*)",\s*"([^"]*)"\)', det[k]):
+            e, par, terms, bad, dbad = items[off + k]
+            for cls, what in re.findall(r'\("([^"]*)",\s*"([^"]*)"\)', det[2 * k]):
                 if what == 'missing' and cls in bad:
                     continue          # already reported as unparsed
                 if what == 'outside the theorem':
@@ -509,29 +519,42 @@ def render_stream(C, entries, name, per_file=25, timeout=900):
                 pr = dict(tree=e['name'], cls=cls, what='mismatch: ' + what)
                 pr['parsed'] = dict(par['classes']).get(cls)
                 problems.append(pr)
+            for cls, what in re.findall(r'\("([^"]*)",\s*"([^"]*)"\)', det[2 * k + 1]):
+                if what == 'missing' and cls in dbad:
+                    continue
+                if what == 'outside the theorem':
+                    n_doutside += 1
+                    outside_d.append((e['name'], cls))
+                    continue
+                pr = dict(tree=e['name'], cls=cls, what='mismatch: ' + what, method='deserialize')
+                pr['parsed'] = dict(par['dclasses']).get(cls)
+                problems.append(pr)
     shown = 0
     for pr in problems:
         if pr['what'].startswith('mismatch: ') and shown < 3:
             e = next(x for x in entries if x['name'] == pr['tree'])
             fn = os.path.join(CASES, f"{name}_render_show.v")
             with open(fn, 'w') as f:
-                f.write("From EO Require Import Prelude.Py Prelude.Corr Model.Spec Model.Elab Model.PyStmt Model.RenderSer Model.RenderCheck.\n"
-                        "Open Scope string_scope.\nOpen Scope list_scope.\nOpen Scope Z_scope.\n")
-                f.write(f"Definition t : list rfile := {coq_tree(e['tree'])}.\nEval vm_compute in (render_show t {cs(pr['cls'])}).\n")
+                f.write(HEAD)
+                show = 'render_show_d' if pr.get('method') == 'deserialize' else 'render_show'
+                f.write(f"Definition t : list rfile := {coq_tree(e['tree'])}.\nEval vm_compute in ({show} t {cs(pr['cls'])}).\n")
             rc, out = sh(['timeout', '120', 'coqc', '-Q', COQ, 'EO', '-w', '-all', fn], cwd=COQ)
             pr['model'] = re.sub(r'\s+', ' ', out)[-3000:]
             shown += 1
     if C is not None:
         for pr in problems:
             if pr['what'].startswith('mismatch') or pr['what'] == 'unparsed':
-                C.disagreement('render', dict(tree=pr['tree'], cls=pr['cls'], what=pr['what'], lineno=pr.get('lineno'), why=pr.get('why')),
+                C.disagreement('render', dict(tree=pr['tree'], cls=pr['cls'], what=pr['what'], method=pr.get('method', 'serialize'), lineno=pr.get('lineno'), why=pr.get('why')),
                                model=pr.get('model'), impl=pr.get('parsed') or pr.get('dump'))
             else:
                 C.broken.append(dict(kind='correspondence', stream='render', msg=f"{pr['what']}: {pr.get('detail', '')}"[:1000]))
-        C.stream('corr.render', n_classes, n_classes, sample=(dict(tree=items[0][0]['name'], cls=items[0][1]['classes'][0][0], stmts=items[0][1]['classes'][0][1][:600])
-                                                              if items and items[0][1]['classes'] else None))
-        C.cov.setdefault('trees', {})['render'] = dict(trees=len(items), classes=n_classes, outside_theorem=n_outside, problems=len(problems))
-    log(f"[{C.pid if C is not None else '-'}] render: {n_classes} classes of {len(items)} trees, {n_outside} outside the theorem's static side condition, "
-        f"{len(problems)} problem(s), {time.time() - t0:.1f}s")
-    render_stream.last = dict(trees=len(items), classes=n_classes, outside_theorem=n_outside, problems=len(problems))
+        C.stream('corr.render', n_classes + n_dclasses, n_classes + n_dclasses,
+                 sample=(dict(tree=items[0][0]['name'], cls=items[0][1]['classes'][0][0], stmts=items[0][1]['classes'][0][1][:600])
+                         if items and items[0][1]['classes'] else None))
+        C.cov.setdefault('trees', {})['render'] = dict(trees=len(items), classes=n_classes, outside_theorem=n_outside,
+                                                       deserialize_methods=n_dclasses, deserialize_outside_theorem=n_doutside, problems=len(problems))
+    log(f"[{C.pid if C is not None else '-'}] render: {n_classes} serialize + {n_dclasses} deserialize methods of {len(items)} trees, "
+        f"{n_outside} + {n_doutside} outside the theorems' static side conditions, {len(problems)} problem(s), {time.time() - t0:.1f}s")
+    render_stream.last = dict(trees=len(items), classes=n_classes, outside_theorem=n_outside, deserialize_methods=n_dclasses,
+                              deserialize_outside_theorem=n_doutside, problems=len(problems), deserialize_outside=outside_d)
     return problems
